@@ -1439,13 +1439,23 @@ class Macro:
             elif tok.token == "#":
                 if isinstance(self, MacroFunction):
                     self.has_strcat = True
-            elif isinstance(tok, Identifier):
-                arg_idx = self.which_arg(tok.token)
-                if arg_idx != -1:
-                    self.arg_needs_expansion[arg_idx] = True
             idx += 1
             res_tokens.append(tok)
         self.replacement = res_tokens
+
+        # An argument is needed in macro-expanded form only where the
+        # parameter is not an operand of # or ##
+        for idx, tok in enumerate(res_tokens):
+            if not isinstance(tok, Identifier):
+                continue
+            arg_idx = self.which_arg(tok.token)
+            if arg_idx == -1:
+                continue
+            if idx > 0 and res_tokens[idx - 1].token in ["#", "##"]:
+                continue
+            if idx + 1 < len(res_tokens) and res_tokens[idx + 1].token == "##":
+                continue
+            self.arg_needs_expansion[arg_idx] = True
 
     def __repr__(self):
         return _representation_string(self)
@@ -1517,21 +1527,9 @@ class MacroFunction(Macro):
         input_args is expected to be a list of (original,
         pre-expanded) arguments passed to this.
         """
-        # Combine variadic arguments into one, separated by commas
-        if self.variadic:
-            comma = Punctuator("EXPANSION", -1, False, ",")
-            va_args_raw = []
-            va_args_exp = []
-            for idx in range(len(self.args) - 1, len(input_args) - 1):
-                va_args_raw.extend(input_args[idx][0])
-                va_args_raw.append(comma)
-                va_args_exp.extend(input_args[idx][1])
-                va_args_exp.append(comma)
-            if len(self.args) - 1 < len(input_args):
-                va_args_raw.extend(input_args[-1][0])
-                va_args_exp.extend(input_args[-1][1])
-
-            input_args[len(self.args) - 1 :] = [(va_args_raw, va_args_exp)]
+        # The variable argument arrives as one argument; it may be omitted
+        if self.variadic and len(input_args) < len(self.args):
+            input_args.append(([], []))
 
         if self.has_strcat:
             res_tokens = []
@@ -1916,15 +1914,9 @@ class MacroExpander:
 
                     pre_expanded = []
                     for i, arg in enumerate(args):
-                        # The arguments merged into a variable argument
-                        # are always needed in expanded form by replace()
                         if (
                             i >= len(macro_lookup.arg_needs_expansion)
                             or macro_lookup.arg_needs_expansion[i]
-                            or (
-                                macro_lookup.variadic
-                                and i >= len(macro_lookup.args) - 1
-                            )
                         ):
                             arg_expansion = self.expand(
                                 arg,
